@@ -854,3 +854,229 @@ func raceCaptured(r *engine.Run, rule string, rel string, minimum int) {
 		r.Anchor(rule, fmt.Errorf("unresolved anchor: %d goroutine literals started in loops in %s", n, rel))
 	}
 }
+
+// snapshotOnce: a dump of the in-memory log is one snapshot: the ring is read
+// under ONE hold of the core's read lock. A reader that takes the lock once per
+// page (or per entry) inside a loop lets writes land between the holds; the
+// ring's cursor moves, so positions counted from it shift: entries are dumped
+// twice, the newest-first order breaks and the oldest retained entries are
+// skipped.
+//
+// Rule: in core/logging no acquisition of MemCore.mu in read mode, and no call
+// of a function that (transitively, within the package) makes one, sits inside a
+// loop.
+func snapshotOnce(r *engine.Run, rule string) {
+	funcs := funcsOfPkg(r, pkgLog)
+	takes := map[*ssa.Function]bool{}
+	for _, f := range funcs {
+		engine.Instrs(f, func(in ssa.Instruction) {
+			if c, ok := in.(*ssa.Call); ok {
+				if key, op, isLock := engine.LockOp(c); isLock && op == "RLock" && key == "MemCore.mu" {
+					takes[f] = true
+				}
+			}
+		})
+	}
+	for changed := true; changed; {
+		changed = false
+		for _, f := range funcs {
+			if takes[f] {
+				continue
+			}
+			engine.Instrs(f, func(in ssa.Instruction) {
+				if c, ok := in.(*ssa.Call); ok {
+					if g := c.Call.StaticCallee(); g != nil && takes[g] && !takes[f] {
+						takes[f] = true
+						changed = true
+					}
+				}
+			})
+		}
+	}
+	n := 0
+	for _, f := range funcs {
+		if len(f.Blocks) == 0 {
+			continue
+		}
+		o := ord{}
+		engine.Instrs(f, func(in ssa.Instruction) {
+			c, ok := in.(*ssa.Call)
+			if !ok {
+				return
+			}
+			isTake := false
+			if key, op, isLock := engine.LockOp(c); isLock && op == "RLock" && key == "MemCore.mu" {
+				isTake = true
+			}
+			if g := c.Call.StaticCallee(); g != nil && takes[g] {
+				isTake = true
+			}
+			if !isTake {
+				return
+			}
+			n++
+			r.Check(!inCycle(c.Block()), rule, o.next(fn(f)+"|read lock per dump"), r.P.Pos(c.Pos()), "the ring's read lock is taken once, outside any loop",
+				"the ring is read under several holds of the read lock (the lock is taken inside a loop): writes land between the holds and move the cursor the positions are counted from - a dump repeats entries, breaks the newest-first order and skips the oldest retained entries")
+		})
+	}
+	if n < 2 {
+		r.Anchor(rule, fmt.Errorf("unresolved anchor: %d read-lock acquisitions of the ring in core/logging", n))
+	}
+}
+
+// copyLock: a struct that holds a mutex (or counters updated through
+// sync/atomic) lives behind a pointer. A method with a value receiver copies the
+// whole struct on every call - the mutex word, the map headers, the counters -
+// without any lock, while other goroutines lock, write and count: a data race in
+// every call (and a copy of a locked mutex), although no answer changes.
+func copyLock(r *engine.Run, rule string, rels ...string) {
+	n := 0
+	for _, rel := range rels {
+		pk := r.P.SSAPkgs[engine.RepoMod+"/"+rel]
+		if pk == nil {
+			r.Anchor(rule, fmt.Errorf("unresolved anchor: package %s", rel))
+			continue
+		}
+		var names []string
+		for name, m := range pk.Members {
+			if _, ok := m.(*ssa.Type); ok {
+				names = append(names, name)
+			}
+		}
+		sort.Strings(names)
+		for _, name := range names {
+			tn := pk.Members[name].(*ssa.Type)
+			st, ok := tn.Type().Underlying().(*types.Struct)
+			if !ok {
+				continue
+			}
+			holds := false
+			for i := 0; i < st.NumFields(); i++ {
+				ts := st.Field(i).Type().String()
+				if ts == "sync.Mutex" || ts == "sync.RWMutex" || ts == "sync.WaitGroup" || ts == "sync.Once" {
+					holds = true
+				}
+			}
+			if !holds {
+				continue
+			}
+			n++
+			named, _ := tn.Type().(*types.Named)
+			bad := ""
+			if named != nil {
+				for i := 0; i < named.NumMethods(); i++ {
+					m := named.Method(i)
+					sig := m.Type().(*types.Signature)
+					if sig.Recv() != nil {
+						if _, isPtr := sig.Recv().Type().(*types.Pointer); !isPtr {
+							bad = m.Name()
+						}
+					}
+				}
+			}
+			r.Check(bad == "", rule, rel+"."+name+"|pointer receivers", r.P.Pos(tn.Pos()), "every method of the mutex-holding struct has a pointer receiver",
+				"method "+bad+" of "+name+" has a value receiver: every call copies the whole struct - its mutex, map headers and counters - without a lock while other goroutines lock and write them (a data race in every call, and a copied mutex)")
+		}
+	}
+	if n < 1 {
+		r.Anchor(rule, fmt.Errorf("unresolved anchor: no mutex-holding struct in %v", rels))
+	}
+}
+
+// rootMovedLast: in mergeChanges the parent's root moves only when nothing can
+// fail any more: no error return is reachable after the root was installed. A
+// merge that moves the root first and then fails while taking over the child's
+// nodes reports the error with the root already at the child's root - and the
+// retry finds "already at this root" and reports success with nothing stored.
+func rootMovedLast(r *engine.Run, rule string) {
+	f := r.Fn(rule, pkgUtil, "MerklePatriciaTrie", "mergeChanges")
+	if f == nil {
+		return
+	}
+	var installs []ssa.Instruction
+	engine.Instrs(f, func(in ssa.Instruction) {
+		switch x := in.(type) {
+		case *ssa.Store:
+			if fld := engine.FieldOf(x.Addr); fld != nil && fld.Name() == "root" {
+				installs = append(installs, x)
+			}
+		case *ssa.Call:
+			if sc := x.Call.StaticCallee(); sc != nil && sc.Name() == "setRoot" {
+				installs = append(installs, x)
+			}
+		}
+	})
+	if len(installs) == 0 {
+		return // DOM-adopt reports a merge that never installs the root
+	}
+	bad := ""
+	for _, ret := range engine.Returns(f) {
+		if ret.Block().Comment == "recover" || len(ret.Results) != 1 || nilConst(resultValue(ret, 0)) {
+			continue
+		}
+		for _, in := range installs {
+			if engine.ReachableAfter(in, ret) {
+				bad = r.P.Pos(ret.Pos())
+			}
+		}
+	}
+	r.Check(bad == "", rule, fn(f)+"|root moved last", r.P.Pos(installs[0].Pos()), "no error return is reachable after the root was installed",
+		"the merge can fail ("+bad+") after it has already moved the parent's root: the refused merge leaves the parent at the child's root without the child's nodes, and a retry returns nil at the 'same root' shortcut with nothing stored")
+}
+
+// loopRemove: removing the element at the loop index in place
+// (s = append(s[:i], s[i+1:]...)) moves the next element into slot i. A loop that
+// then increments i unconditionally never examines that element: of two adjacent
+// elements that both qualify only the first is removed.
+func loopRemove(r *engine.Run, rule string, rel string) {
+	n := 0
+	for _, f := range funcsOfPkg(r, rel) {
+		if len(f.Blocks) == 0 {
+			continue
+		}
+		o := ord{}
+		engine.Instrs(f, func(in ssa.Instruction) {
+			c, ok := in.(*ssa.Call)
+			if !ok {
+				return
+			}
+			b, ok := c.Call.Value.(*ssa.Builtin)
+			if !ok || b.Name() != "append" || len(c.Call.Args) != 2 || !inCycle(c.Block()) {
+				return
+			}
+			head, ok1 := c.Call.Args[0].(*ssa.Slice)
+			tail, ok2 := c.Call.Args[1].(*ssa.Slice)
+			if !ok1 || !ok2 || head.High == nil || tail.Low == nil || head.Low != nil {
+				return
+			}
+			// tail.Low == head.High + 1
+			inc, ok := tail.Low.(*ssa.BinOp)
+			if !ok || inc.Op != token.ADD || inc.X != head.High {
+				return
+			}
+			if k := constVal(inc.Y); k == nil || k.ExactString() != "1" {
+				return
+			}
+			idx, ok := head.High.(*ssa.Phi)
+			if !ok {
+				return
+			}
+			n++
+			// how the index continues: every in-loop edge of the index phi is idx+1 and idx is never decremented
+			onlyInc := true
+			for i, e := range idx.Edges {
+				pred := idx.Block().Preds[i]
+				if !inCycle(pred) || !idx.Block().Dominates(pred) {
+					continue // entry edge
+				}
+				bo, ok := e.(*ssa.BinOp)
+				if !ok || bo.Op != token.ADD || bo.X != ssa.Value(idx) {
+					onlyInc = false
+				}
+			}
+			r.Check(!onlyInc, rule, o.next(fn(f)+"|in-place removal"), r.P.Pos(c.Pos()), "after removing the element at the index the loop does not step past the element that moved into its place",
+				"the element at the loop index is removed in place and the index is then incremented unconditionally: the element that moved into the slot is never examined - of two adjacent qualifying entries only the first is removed (a re-created node's value record stays scheduled for collection next to its cancelled extension record)")
+		})
+	}
+	r.OK(rule, rel+"|in-place removals", "-", fmt.Sprintf("%d in-place removals inside loops", n))
+}
